@@ -248,6 +248,7 @@ C35Xmin == {<<-6, -3>>, <<-3, -1>>}
 C35Cells == [contour : C35Contours, deg : 1..4, size : C35Sizes, xmin : C35Xmin]
 C35Class == -2                       \* 1e-2 on a 0/1 answer
 C35ResolvedFrom == 2                 \* k4 >= 2, i.e. r_k * dmin >= 0.5
+C35InteriorGross == 100              \* interior points (degree >= 2): |inverse - basis value| x 1000 <= 100, finite
 C35PointVerdict(pt) ==               \* pt = <<k4, resid_e>>
   IF pt[1] < C35ResolvedFrom THEN "unresolved"
   ELSE IF pt[2] <= C35Class THEN "pass" ELSE "fail"
